@@ -1295,9 +1295,7 @@ func do_LOAD_FAST(vm *Vm, var_num int32) error {
 		vm.PUSH(value)
 	} else {
 		varname := vm.frame.Code.Varnames[var_num]
-		return py.ExceptionNewf(py.NameError, nameErrorMsg, varname)
-		// FIXME ceval.c says this, but it python3.4 returns the above
-		// return py.ExceptionNewf(py.UnboundLocalError, unboundLocalErrorMsg, varname)
+		return py.ExceptionNewf(py.UnboundLocalError, unboundLocalErrorMsg, varname)
 	}
 	return nil
 }
@@ -1312,8 +1310,7 @@ func do_STORE_FAST(vm *Vm, var_num int32) error {
 func do_DELETE_FAST(vm *Vm, var_num int32) error {
 	if vm.frame.LocalVars[var_num] == nil {
 		varname := vm.frame.Code.Varnames[var_num]
-		return py.ExceptionNewf(py.NameError, nameErrorMsg, varname)
-		// FIXME ceval.c says this return py.ExceptionNewf(py.UnboundLocalError, unboundLocalErrorMsg, varname)
+		return py.ExceptionNewf(py.UnboundLocalError, unboundLocalErrorMsg, varname)
 	} else {
 		vm.frame.LocalVars[var_num] = nil
 	}
